@@ -752,4 +752,87 @@ example : c09Check false [.send 0 0 (dataPacket 1 [1]), .recv 1 1 0 (errorPacket
 example : c09Check false (runTransfer ⟨2048, 30, 1, 65464, some 0⟩ ⟨false, []⟩ (.stream [1, 2, 3] [] true none)
     [.pkt 0 1 0 (errorPacket 255 [120]), .pkt 1 0 0 (ackPacket 1)]) = true := by decide
 
+/-! ### handlers that raise while being asked -/
+
+theorem failingHandler_none_of_noRaise (l : List Ans) (i : Nat) (h : ∀ a ∈ l, a.raises = false) :
+    failingHandler i l = none := by
+  induction l generalizing i with
+  | nil => rfl
+  | cons a rest ih =>
+    have ha := h a (List.mem_cons_self ..)
+    cases a with
+    | yes => rfl
+    | no => exact ih (i + 1) (fun b hb => h b (List.mem_cons_of_mem _ hb))
+    | raisePrepare => simp [Ans.raises] at ha
+    | raiseCanHandle => simp [Ans.raises] at ha
+
+/-- **Handlers that do not raise: nothing changes.** The request port with possibly raising handlers
+is the request port of the rest of this file whenever no handler raises. -/
+theorem processDatagramF_noRaise (answers : List Char → List Ans) (data : Bytes)
+    (h : ∀ f, ∀ a ∈ answers f, a.raises = false) :
+    processDatagramF answers data = .ok (processDatagram (fun f => (answers f).map Ans.toBool) data) := by
+  unfold processDatagramF
+  cases hr : reachesHandlers data with
+  | none => rfl
+  | some f => simp [Option.bind, failingHandler_none_of_noRaise (answers f) 0 (h f)]
+
+theorem dispatchCallsF_noRaise (l : List Ans) (i : Nat) (h : ∀ a ∈ l, a.raises = false) :
+    dispatchCallsF i l = dispatchCalls i (l.map Ans.toBool) := by
+  induction l generalizing i with
+  | nil => rfl
+  | cons a rest ih =>
+    have ha := h a (List.mem_cons_self ..)
+    cases a with
+    | yes => rfl
+    | no =>
+      simp only [dispatchCallsF, List.map_cons, Ans.toBool, dispatchCalls]
+      rw [ih (i + 1) (fun b hb => h b (List.mem_cons_of_mem _ hb))]
+    | raisePrepare => simp [Ans.raises] at ha
+    | raiseCanHandle => simp [Ans.raises] at ha
+
+/-- **A raising handler costs the client this one request and nothing else**: the result is
+`handlerFailed` only for a datagram that reached the handlers (an RFC-shaped read request that is not a
+mail request), no reply and no transfer belong to it (`requestPortFaultOK` on the model's own output),
+and — the request port being a function of the single datagram — every other datagram is answered as
+if the failure had never happened. -/
+theorem handlerFailed_only_when_asked (answers : List Char → List Ans) (data : Bytes) (i : Nat)
+    (h : processDatagramF answers data = .handlerFailed i) :
+    ∃ f, reachesHandlers data = some f ∧ failingHandler 0 (answers f) = some i := by
+  unfold processDatagramF at h
+  cases hr : reachesHandlers data with
+  | none => simp [hr, Option.bind] at h
+  | some f =>
+    refine ⟨f, rfl, ?_⟩
+    simp only [hr, Option.bind] at h
+    cases hf : failingHandler 0 (answers f) with
+    | none => simp [hf] at h
+    | some k => simp [hf] at h; rw [h]
+
+/-- the calls made before the failing handler raised end with that handler and contain no `handle` -/
+theorem dispatchCallsF_failing_no_handle (l : List Ans) (i k : Nat) (h : failingHandler i l = some k) :
+    ∀ c ∈ dispatchCallsF i l, ∀ j, c ≠ .handle j := by
+  induction l generalizing i with
+  | nil => simp [failingHandler] at h
+  | cons a rest ih =>
+    cases a with
+    | yes => simp [failingHandler] at h
+    | no =>
+      simp only [failingHandler] at h
+      intro c hc j
+      simp only [dispatchCallsF, List.mem_cons] at hc
+      rcases hc with rfl | rfl | hc
+      · simp
+      · simp
+      · exact ih (i + 1) h c hc j
+    | raisePrepare => intro c hc j; simp only [dispatchCallsF, List.mem_cons, List.mem_nil_iff, or_false] at hc; subst hc; simp
+    | raiseCanHandle =>
+      intro c hc j
+      simp only [dispatchCallsF, List.mem_cons, List.mem_nil_iff, or_false] at hc
+      rcases hc with rfl | rfl <;> simp
+
+example : processDatagramF (fun _ => [.no, .raiseCanHandle, .yes]) (0 :: 1 :: [102, 0, 111, 99, 116, 101, 116, 0])
+    = .handlerFailed 1 := by decide
+example : processDatagramF (fun _ => [.yes, .raiseCanHandle]) (0 :: 1 :: [102, 0, 111, 99, 116, 101, 116, 0])
+    = .ok (.transfer ⟨['f'], .octet, []⟩ 0) := by decide
+
 end Vinegar.C09
